@@ -27,7 +27,7 @@ import numpy as np
 import core
 from ser import rat
 
-LEAN_MODULE = "Optyx.Props.C06"
+LEAN_MODULE = "Optyx.Props.C06b"
 THEOREMS = [
     "Optyx.Props.C06.pass_optimal_feasible",
     "Optyx.Props.C06.scipy_optimal_feasible",
@@ -36,6 +36,7 @@ THEOREMS = [
     "Optyx.Props.C06.lp_optimal_success",
     "Optyx.Props.C06.lp_optimal_feasible",
     "Optyx.Props.C06.solve_optimal_feasible",
+    "Optyx.Props.C06.lp_optimal_user_feasible",
 ]
 ASSUMPTIONS = [
     "solver results are finite: NaN / ±inf inside result.x or result.fun are outside the rational model",
